@@ -50,6 +50,15 @@ def font_record(case):
     except Exception as e:  # noqa
         rec["ret"] = {"err": type(e).__name__}
         return rec
+    # derived fields as the compile function returns them (fontTools recomputes several of them when saving)
+    mem = {}
+    try:
+        mem["os2"] = [otf["OS/2"].usFirstCharIndex, otf["OS/2"].usLastCharIndex]
+        mem["hhea"] = [getattr(otf["hhea"], k) for k in ("advanceWidthMax", "minLeftSideBearing", "minRightSideBearing", "xMaxExtent", "numberOfHMetrics")]
+        mem["head"] = [getattr(otf["head"], k) for k in ("xMin", "yMin", "xMax", "yMax")]
+        mem["numGlyphs"] = otf["maxp"].numGlyphs
+    except Exception as e:  # noqa
+        mem = {"err": type(e).__name__}
     try:
         data, f2 = project.save_reload(otf)
     except Exception as e:  # noqa
@@ -60,7 +69,7 @@ def font_record(case):
     data2 = buf.getvalue()
     f2 = TTFont(io.BytesIO(data))
     order = f2.getGlyphOrder()
-    ret = {"order": order, "resaveEqual": data2 == data}
+    ret = {"order": order, "resaveEqual": data2 == data, "mem": mem}
     cm = []
     uvs = []
     for t in f2["cmap"].tables:
